@@ -51,6 +51,8 @@ def type_check_coverage(F, R):
 
 
 def check(F, R, tier):
+    from . import C04
+    C04.dead_port_tokens_released(F, R)   # the producer token of a writer that died is given back (one writer at a time, but not none for ever)
     type_check_coverage(F, R)
     lib.cas_loops_fresh(R, F, r'^iceoryx2_bb_lock_free::spmc::unrestricted_atomic::', 1, 'a decision computed once before the loop is stale after the first failed CAS')
     store = F.fn(UA + 'UnrestrictedAtomic::<T>::store')
